@@ -593,6 +593,25 @@ func c12R5(c *Ctx, rule string) {
 				}
 			}
 		}
+		if len(dec) > 1 {
+			// the bookkeeping tail written once per branch (a helper expanded at two tail positions): path form of the same
+			// statement — no way into a nil return avoids a decrement, and after a decrement no second one is reachable
+			okOne = true
+			for _, rp := range retPointsOfFunc(cs) {
+				if !isNilConst(rp.Vals[0]) {
+					continue
+				}
+				at := rp.At
+				if miss := entrySearch(cs, ev.isDecr, func(i ssa.Instruction) bool { return i == at }); miss != nil {
+					okOne = false
+				}
+			}
+			for _, d := range dec {
+				if again := forwardSearch(d, nil, ev.isDecr); again != nil {
+					okOne = false
+				}
+			}
+		}
 		c.Check(okOne, rule, "closeStream: one decrement on every nil-returning path", c.atFn(cs), "single call dominating every 'return nil'", "a successful stream close does not decrement exactly once")
 	}
 }
@@ -639,6 +658,25 @@ func c12R6(c *Ctx, rule string) {
 					for _, s := range []ssa.Value{at.X, at.Y} {
 						if call, ok := s.(*ssa.Call); ok && ev.isDecr(call) {
 							if k, isK := intConst(otherSide(at, s)); isK && k == 0 {
+								zeroGuard = true
+							}
+						}
+					}
+				}
+				// the same for an unsigned count written as "not more than zero": remaining <= 0, 0 >= remaining, remaining < 1
+				if at.Kind == "cmp" && (at.Op == token.LEQ || at.Op == token.LSS || at.Op == token.GEQ || at.Op == token.GTR) {
+					x, y, op := at.X, at.Y, at.Op
+					if op == token.GEQ || op == token.GTR { // k >= s  ≡  s <= k
+						x, y = y, x
+						if op == token.GEQ {
+							op = token.LEQ
+						} else {
+							op = token.LSS
+						}
+					}
+					if call, ok := stripConv(x).(*ssa.Call); ok && ev.isDecr(call) {
+						if b, isB := call.Type().Underlying().(*types.Basic); isB && b.Info()&types.IsUnsigned != 0 {
+							if k, isK := intConst(y); isK && ((op == token.LEQ && k == 0) || (op == token.LSS && k == 1)) {
 								zeroGuard = true
 							}
 						}
